@@ -117,6 +117,9 @@ const PROFILES: &[Profile] = &[
     prof("broken-hash", "map", "mixed"),
     prof("broken-eq", "map", "mixed"),
     prof("broken-both", "map", "mixed"),
+    prof("broken-sat", "map", "saturate"),
+    prof("broken-entry", "map", "entry"),
+    prof("broken-table", "table", "table"),
     prof("par", "par", "par"),
     prof("serde", "serde", "serde"),
     prof("table", "table", "table"),
@@ -173,6 +176,15 @@ fn deleted_of(d: &hashbrown::verif::Dump) -> usize {
     }
 }
 
+/// Protocol line of a generated step (`env …` lines pass through, everything else is an op).
+fn op_line(o: &str) -> String {
+    if o.starts_with("env ") {
+        o.to_string()
+    } else {
+        format!("op {}", o)
+    }
+}
+
 fn counters_now() -> [u64; 6] {
     tape::with(|t| [t.hc, t.ec, t.cc, t.pc, t.ac, t.dc])
 }
@@ -219,6 +231,13 @@ fn make_base(prof: &Profile, seed: u64, i: usize, real: Option<&mut dyn Write>) 
     let mut pre = vec![format!("env pred={}", rng.below(1 << 30))];
     match prof.name {
         "broken-hash" => pre.push(format!("env hash=mix:{}", rng.below(1 << 30))),
+        "broken-entry" | "broken-table" => {
+            if rng.chance(1, 2) {
+                pre.push(format!("env hash=mix:{}", rng.below(1 << 30)))
+            } else {
+                pre.push(format!("env hash=mix:{} eq=mix:{}", rng.below(1 << 30), rng.below(1 << 30)))
+            }
+        }
         "broken-eq" => pre.push(format!("env eq=mix:{}", rng.below(1 << 30))),
         "broken-both" => pre.push(format!("env hash=mix:{} eq=mix:{}", rng.below(1 << 30), rng.below(1 << 30))),
         _ => {}
@@ -235,6 +254,7 @@ fn make_base(prof: &Profile, seed: u64, i: usize, real: Option<&mut dyn Write>) 
         journal(l);
     }
     let mut g = gen::Gen::new(rng.next(), universe, prof.gen);
+    g.variant = prof.name;
     let mut ops = Vec::new();
     let mut counters = Vec::new();
     let mut inplace = Vec::new();
@@ -245,6 +265,14 @@ fn make_base(prof: &Profile, seed: u64, i: usize, real: Option<&mut dyn Write>) 
     for _ in 0..steps {
         let op = g.next(runner.as_ref());
         counters.push(counters_now());
+        if op.starts_with("env ") {
+            // oracle switch requested by the generator: no observation line
+            journal(&op);
+            tape::with(|t| t.p.apply(&op.split_whitespace().skip(1).collect::<Vec<_>>()));
+            inplace.push(false);
+            ops.push(op);
+            continue;
+        }
         let toks: Vec<&str> = op.split_whitespace().collect();
         let before = runner.dump(toks[0]);
         let hc0 = counters_now()[0];
@@ -297,7 +325,7 @@ fn generate(profile: &str, seed: u64, count: usize, out: &str) {
         let b = make_base(prof, seed, i, Some(&mut real));
         write_header(&mut ops, &b, &b.id);
         for o in &b.ops {
-            writeln!(ops, "op {}", o).unwrap();
+            writeln!(ops, "{}", op_line(o)).unwrap();
         }
         writeln!(ops, "end").unwrap();
         ops.flush().unwrap();
@@ -359,7 +387,7 @@ fn sweep(prof: &Profile, seed: u64, count: usize, ops: &mut dyn Write, real: &mu
                     let id = format!("{}-op{}-{}{}", b.id, j, cls, k);
                     let mut lines: Vec<String> = Vec::new();
                     for o in &b.ops[..j] {
-                        lines.push(format!("op {}", o));
+                        lines.push(op_line(o));
                     }
                     lines.push(format!("env {}={}", cls, b.counters[j][c] + k));
                     lines.push(format!("op {}", b.ops[j]));
